@@ -99,7 +99,7 @@ func (o *ExprOptions) SlidingWindowInterval(interval Interval) Interval {
 
 func (o *ExprOptions) Marshal() *internal.ExprOptions {
 	return &internal.ExprOptions{
-		Expr: o.Expr.String(),
+		Expr: influxql.StringForCodec(o.Expr),
 		Ref:  o.Ref.String(),
 	}
 }
